@@ -19,6 +19,7 @@ type vAttempt struct {
 	endSeq   int
 	outcome  int // 0 succeed, 1 fail, 2 hang until the context ends
 	ctxDead  bool
+	ctxEnded bool // the attempt ended because its context did
 	conn     *vDialConn
 	returned bool
 }
@@ -68,11 +69,13 @@ func verifC18Dial() {
 		}
 		if a.outcome == 2 {
 			<-ctx.Done()
+			a.ctxEnded = true
 			return nil, ctx.Err()
 		}
 		select {
 		case <-time.After(time.Duration(durs[idx%nt])):
 		case <-ctx.Done():
+			a.ctxEnded = true
 			return nil, ctx.Err()
 		}
 		if a.outcome == 1 {
@@ -98,6 +101,8 @@ func verifC18Dial() {
 	}
 	conn, err := d.Dial(ctx, "tcp", "h.example:443", nil)
 	tEnd := vNowNanos() - t0
+	evt++
+	retSeq := evt // position of Dial's return in the event order
 	vReach("returned")
 	vAssert((conn != nil) == (err == nil), "a connection or an error")
 	vAssert(maxInflight <= maxc, "never more than MaxConcurrency attempts in flight")
@@ -131,6 +136,26 @@ func verifC18Dial() {
 		if a.outcome == 2 && a.returned && !a.ctxDead && vSymbolic() {
 			vAssert(a.end-a.start <= timeout, "each attempt is bounded by Timeout")
 		}
+	}
+	// ... and by nothing shorter: an attempt's context ends (or is already dead when the
+	// attempt begins) only once Timeout has passed since the attempt began, the caller
+	// cancelled, another attempt succeeded, or Dial returned
+	for _, a := range atts {
+		if !a.ctxDead && !(a.ctxEnded && a.returned) {
+			continue
+		}
+		at, seq := a.start, a.startSeq
+		if !a.ctxDead {
+			at, seq = a.end, a.endSeq
+		}
+		// (event order, not time, separates cause from effect within one virtual instant)
+		legit := at-a.start >= timeout || (cancelAt >= 0 && cancelAt <= at) || retSeq < seq
+		for _, b := range atts {
+			if b != a && b.conn != nil && b.returned && b.endSeq < seq {
+				legit = true
+			}
+		}
+		vAssert(legit, "an attempt's context ends only after Timeout from its own start, caller cancellation, a success, or Dial's return")
 	}
 	if err == nil {
 		// the first success wins (in time order of completion)
